@@ -153,6 +153,13 @@ def audit_sources():
                     bad.append("%s:%d: %s" % (os.path.relpath(path, VERIF), ln, s.strip()[:120]))
     return bad
 
+def run_coqchk(pid):
+    """independent re-check of the compiled property file and everything it depends on (thorough tier)"""
+    rc, out = sh("timeout 2400 coqchk -silent -o -Q theories IT -Q proofs IT.proofs -Q props IT.props -Q gen IT.gen IT.props.%s" % pid, cwd=COQ, timeout=2500)
+    ok = (rc == 0 and "Axioms: <none>" in out and "type-in-type: <none>" in out
+          and "unsafe (co)fixpoints: <none>" in out and "positivity is assumed: <none>" in out)
+    return ok, out[-1200:]
+
 def check_proofs(pid):
     """compile props/<ID>.v: its `Check (thm : statement)` pins and Print Assumptions."""
     res = dict(file="coq/props/%s.v" % pid, obligations=0, discharged=0, theorems=[], assumptions=[], ok=False, log="")
@@ -438,6 +445,11 @@ def check(pid, tier, seed):
         coq_ok = ensure_tools()
         wd = workdir(pid)
         proof = check_proofs(pid)
+        if tier == "thorough" and proof["ok"]:
+            ok, log_ = run_coqchk(pid)
+            proof["coqchk"] = "coqchk -o: Axioms <none>, no type-in-type, no unsafe fixpoints, no assumed positivity" if ok else "coqchk FAILED: " + log_
+            if not ok:
+                proof["ok"] = False; proof["log"] += "\ncoqchk: " + log_
         audit = audit_sources()
         bins = {"debug": harness_bin(False), "release": harness_bin(True)}
         results = []
@@ -580,6 +592,7 @@ def write_evidence(pid, tier, seed, proof, audit, results, extra, wall, violatio
         "checker_cmd": "coqc -Q theories IT -Q proofs IT.proofs -Q props IT.props -Q gen IT.gen props/%s.v (after make -C coq); grep audit for Admitted/Axiom/...; Print Assumptions per theorem" % pid,
         "trusted_base": TRUSTED_BASE + ["Print Assumptions: " + ("; ".join(sorted(set(proof["assumptions"]))) or "n/a")],
         "theorems": proof["theorems"],
+        "coqchk": proof.get("coqchk", "not run in this tier"),
         "histories": sum(r["hists"] for r in results),
         "observation_lines_compared": sum(r["lines"] for r in results),
         "model_impl_disagreements": sum(len(r["diffs"]) for r in results),
